@@ -117,6 +117,16 @@ func (worldS) Gen(r *core.Rand, env *core.Env) SCase {
 	}
 	wid := 0
 	flushes := 0
+	dropped := map[int]bool{}
+	liveMst := func() []int {
+		var l []int
+		for m := 0; m < c.NMst; m++ {
+			if !dropped[m] {
+				l = append(l, m)
+			}
+		}
+		return l
+	}
 	bigAt := -1
 	if (env.Property == "C01" || env.Property == "C02" || env.Property == "C07") && r.Intn(20) == 0 {
 		bigAt = r.Intn(nops) // one write whose log record exceeds 2 MiB compressed
@@ -127,7 +137,7 @@ func (worldS) Gen(r *core.Rand, env *core.Env) SCase {
 			op := SOp{K: "w", ID: wid}
 			n := r.Range(130, 220)
 			for j := 0; j < n; j++ {
-				op.Rows = append(op.Rows, SRow{M: r.Intn(c.NMst), S: r.Intn(c.NSeries), T: r.Intn(sNumTimes), F: 8 | r.Intn(16), P: r.Range(16, 24)})
+				op.Rows = append(op.Rows, SRow{M: core.Pick(r, liveMst()), S: r.Intn(c.NSeries), T: r.Intn(sNumTimes), F: 8 | r.Intn(16), P: r.Range(16, 24)})
 			}
 			c.Ops = append(c.Ops, op)
 			continue
@@ -145,6 +155,15 @@ func (worldS) Gen(r *core.Rand, env *core.Env) SCase {
 				w = []int{10, 2, 0, 0, 0, 1}
 			}
 		}
+		// DROP MEASUREMENT (C01: "never brings back a dropped measurement"; the generator
+		// does not write to a dropped measurement again: in the product a re-created
+		// measurement gets a new versioned name)
+		if (env.Property == "C01" || env.Property == "C02") && c.NMst > 1 && len(liveMst()) > 1 && r.Intn(30) == 0 {
+			m := core.Pick(r, liveMst())
+			dropped[m] = true
+			c.Ops = append(c.Ops, SOp{K: "dropm", M: m})
+			continue
+		}
 		switch r.Weighted(w) {
 		case 0:
 			wid++
@@ -155,7 +174,7 @@ func (worldS) Gen(r *core.Rand, env *core.Env) SCase {
 			}
 			// late data: older than what is already flushed, with some probability
 			for j := 0; j < n; j++ {
-				row := SRow{M: r.Intn(c.NMst), S: r.Intn(c.NSeries), T: r.Intn(sNumTimes)}
+				row := SRow{M: core.Pick(r, liveMst()), S: r.Intn(c.NSeries), T: r.Intn(sNumTimes)}
 				row.F = 1 + r.Intn(15)
 				if r.Bool(0.4) {
 					row.F = 15
@@ -610,6 +629,7 @@ func (run *sRun) step(i int, op SOp) *core.Violation {
 			return sviol(run.prop, "drop_error", fmt.Sprintf("op %d: DropMeasurement = %v", i, err), nil)
 		}
 		run.model.dropMeasurement(op.M)
+		out.Stats["measurement_drops"]++
 	}
 	return nil
 }
